@@ -240,9 +240,11 @@ func (bc *boundaryChecker) funcSafe(fn *ssa.Function) (bool, string) {
 			break
 		}
 	}
-	if s == nil || fn.Blocks == nil {
+	// without a string parameter (a search over the boundary table that returns a position) only values that are
+	// boundaries of any string qualify below: recorded Boundary positions and 0
+	if fn.Blocks == nil {
 		bc.summary[fn] = 2
-		bc.why[fn] = "no string parameter"
+		bc.why[fn] = "no body"
 		return false, bc.why[fn]
 	}
 	for _, r := range eng.Returns(fn) {
